@@ -13,17 +13,17 @@ func init() {
 		Mounts: map[string]string{"internal/resolver/dns/zzverifwmdns": "sim/wmdns"}})
 	selftestProps = append(selftestProps, "C52", "C56")
 
-	regProp("C52", (&Prop{World: "wmalts", QuickRuns: 40000, QuickSecs: 25, ThoroughRuns: 2000000, ThoroughSecs: 480, Batch: 40, RunTimeoutS: 120, PanicIsViolation: true,
-		Real: []string{"credentials/alts/internal/conn: conn.Write / conn.Read / conn.ReadOnReady (record.go), ParseFramedMsg (common.go), Counter (counter.go), aes128gcm and aes128gcmRekey record cryptos incl. rekeyAEAD, crypto/aes + crypto/cipher GCM"},
-		Stub: []string{"network (simnet: seeded segmentation, read-size limits, latency, back-pressure)", "harness conn between ALTS conn and network (parses the length framing, injects flips/drops/duplicates/swaps/truncations, glues write tails to the next write)", "ALTS handshake (both conns are built with NewConnWithMaxFrameSize from a generated key; frame size 0 or 4 KiB..512 KiB per side)", "clock (synctest)", "goroutine scheduler (detrt)"},
+	regProp("C52", (&Prop{World: "wmalts", QuickRuns: 40000, QuickSecs: 25, ThoroughRuns: 2000000, ThoroughSecs: 480, Batch: 40, RunTimeoutS: 30, PanicIsViolation: true,
+		Real:   []string{"credentials/alts/internal/conn: conn.Write / conn.Read / conn.ReadOnReady (record.go), ParseFramedMsg (common.go), Counter (counter.go), aes128gcm and aes128gcmRekey record cryptos incl. rekeyAEAD, crypto/aes + crypto/cipher GCM"},
+		Stub:   []string{"network (simnet: seeded segmentation, read-size limits, latency, back-pressure)", "harness conn between ALTS conn and network (parses the length framing, injects flips/drops/duplicates/swaps/truncations, glues write tails to the next write)", "ALTS handshake (both conns are built with NewConnWithMaxFrameSize from a generated key; frame size 0 or 4 KiB..512 KiB per side)", "clock (synctest)", "goroutine scheduler (detrt)"},
 		Assume: []string{"frame size limit = whole frame including the 4-byte length field (the meaning the package's own tests give it)", "counter overflow is reached through an in-package seam: the sender's out counter and the receiver's in counter are replaced by CounterFromValue(near-maximum value) of the counter's own width; all nonces between the initial value and that value count as already used"}}).doc(
 		"Generated write-size sequences (aimed at record and write-buffer boundaries), read-buffer-size sequences, Read and ReadOnReady, both record protocols, per-side frame sizes, handshake leftover bytes (`protected`), random segmentation/coalescing, and a fault plan at record/byte level, with two real conns. Oracles: every byte any read returns equals the written stream at that position; fault-free directions deliver everything with no error; every record on the wire is within the sender's frame limit; after a fault nothing beyond the intact in-order prefix is ever delivered and a read fails before anything that follows a bad record; no nonce is sealed twice (recorded at the AEAD) including across a counter wrap. Sampling of inputs and fault positions, not proof.",
 		"Trusted: the harness framing parser and fault injector, simnet, crypto/aes. The maximum frame size is not fixed by constants: it is the negotiatedMaxFrameSize argument of NewConnWithMaxFrameSize (the handshaker passes min(peer, env GRPC_GO_EXPERIMENTAL_ALTS_MAX_FRAME_SIZE in 4096..512 KiB)), clamped below to 4 KiB; the receiver accepts records up to 1 MiB whatever was negotiated. Flips of the three high bytes of the (unauthenticated, unchecked) message-type field are expected to be harmless rather than detected. The handshake itself is out of scope.",
 		"two real ALTS record conns over simnet with a record-level fault-injecting wire and an ideal-receiver model"))
 
 	regProp("C56", (&Prop{World: "wmdns", QuickRuns: 150000, QuickSecs: 25, ThoroughRuns: 4000000, ThoroughSecs: 480, Batch: 300, RunTimeoutS: 60,
-		Real: []string{"internal/resolver/dns: dnsBuilder.Build, dnsResolver.watcher/lookup/lookupHost/lookupSRV/lookupTXT/ResolveNow/Close, parseTarget, formatIP; internal/backoff.DefaultExponential"},
-		Stub: []string{"net.Resolver (fake internal.NetResolver installed through internal.NewNetResolver: scripted results, errors, delays, hangs until the context ends)", "resolver.ClientConn (recording fake; UpdateState may return an error by script)", "callers of ResolveNow/Close (scripted goroutines, some triggered by lookups/reports/timer starts)", "clock (synctest; internal.TimeAfterFunc only adds a notification in front of time.After)", "goroutine scheduler (detrt)"},
+		Real:   []string{"internal/resolver/dns: dnsBuilder.Build, dnsResolver.watcher/lookup/lookupHost/lookupSRV/lookupTXT/ResolveNow/Close, parseTarget, formatIP; internal/backoff.DefaultExponential"},
+		Stub:   []string{"net.Resolver (fake internal.NetResolver installed through internal.NewNetResolver: scripted results, errors, delays, hangs until the context ends)", "resolver.ClientConn (recording fake; UpdateState may return an error by script)", "callers of ResolveNow/Close (scripted goroutines, some triggered by lookups/reports/timer starts)", "clock (synctest; internal.TimeAfterFunc only adds a notification in front of time.After)", "goroutine scheduler (detrt)"},
 		Assume: []string{"a re-resolution request counts once it was made after the end of the previous successful resolution's predecessor (requests are coalesced by the resolver; the oracle needs one distinct ResolveNow call per post-success lookup)", "backoff bounds accept both retry-index conventions: delay after the n-th consecutive failure in [0.8*min(1.6^(n-1),120) s, 1.2*min(1.6^n,120) s]"}}).doc(
 		"Seeded timelines of ResolveNow bursts from several goroutines, scripted lookup outcomes (addresses, temporary/timeout/not-found/other errors, unparsable addresses, hangs, ClientConn rejecting the update), minimum resolution interval 30 s/small/zero, resolving timeout, Close at random and at coinciding instants, all under virtual time with the real resolver. Oracles on lookup timestamps: after a successful resolution no lookup before min interval has passed and not without a ResolveNow call that can account for it; after the n-th consecutive failure the retry comes within the documented exponential backoff band; no lookup starts after Close returned; addresses are emitted as ip:port with IPv6 bracketed. Sampling, not proof.",
 		"Trusted: the fake NetResolver/ClientConn, the timeline oracle. The target-parsing clause (host, host:port, IPv4, bare/bracketed IPv6, default port 443, trailing colon rejected) is a pure function of the target string: it is covered only as an input-generation rider (targets built from a grammar whose expected host/port is known by construction), the simulation decides the pacing, backoff and close clauses.",
